@@ -4,12 +4,18 @@ package main
 //
 //	scenario  `P <hex>`  → component_definition.NewProperty(nil, …, "wire", text)
 //	scenario  `S <hex>`  → the `prop` shorthand rewrite of the value processor, then NewProperty
+//	scenario  `U <r><m> <hex>` → a USER-DEFINED tag scanner (embeds DefaultTagScanDefinitionRegistryPostProcessor, tag `plugin`;
+//	                       r: 0 = Required left unset, 1 = Required:true, 2 = Required:false; m: 0 = tag lookup,
+//	                       1 = ExtractHandler only, 2 = ExtractHandler + the scanner's tag name) scans a run-time struct
+//	                       whose field carries the text; observed: the property that arrives in the registry
 //	observation          `<tagval> <args> <required>` | `panic`
 //
 // Oracles (evaluated on the real code only, independent of the model):
 //   - totality: no panic for any byte string;
 //   - structured tags (generated from the grammar) parse to exactly what was rendered;
-//   - IsRequired() is false iff an argument named required/Required lists the item `false`.
+//   - IsRequired() is false iff an argument named required/Required lists the item `false`;
+//   - through a scanner (built-in or user-defined, whatever its Required field) the point is optional only when the
+//     tag TEXT says required=false (tag-scan-required, tag-scan-required-user).
 
 import (
 	"fmt"
@@ -239,11 +245,151 @@ func scanEndToEnd(text string, direct *component_definition.Property) string {
 	if pan != nil && fail == "" {
 		fail = "FAIL tag-panic scanner: " + fmt.Sprint(pan)
 	}
+	if fail == "" {
+		// the same text under a user-defined scanner that leaves Required unset, and one that sets it
+		for _, cfg := range []string{"00", "11"} {
+			if _, f, ok := scanUser(cfg, text, nil); ok && f != "" {
+				return f
+			}
+		}
+	}
 	return fail
+}
+
+// userTagScanner is what an application writes to get its own tag scanned (cf. /repo/unittest/component/modified_inject):
+// the stock scanner embedded, only the fields it cares about filled in.
+type userTagScanner struct {
+	processors.DefaultTagScanDefinitionRegistryPostProcessor
+}
+
+func newUserScanner(cfg string) (container.DefinitionRegistryPostProcessor, string) {
+	sc := &userTagScanner{}
+	sc.NodeType = component_definition.PropertyTypeComponent
+	switch cfg[0] {
+	case '1':
+		sc.Required = true
+	case '2':
+		sc.Required = false
+	} // '0': the field is never mentioned (zero value)
+	key := "plugin"
+	switch cfg[1] {
+	case '0':
+		sc.Tag = "plugin"
+	case '1':
+		sc.ExtractHandler = func(_ *component_definition.Meta, field *component_definition.Field) (string, string, bool) {
+			v, ok := field.StructField.Tag.Lookup("plugin")
+			return "plugin", v, ok
+		}
+	default:
+		key = "plug"
+		sc.Tag = "plugin"
+		sc.ExtractHandler = func(_ *component_definition.Meta, field *component_definition.Field) (string, string, bool) {
+			v, ok := field.StructField.Tag.Lookup("plug")
+			return "", v, ok
+		}
+	}
+	return sc, key
+}
+
+func validUserCfg(cfg string) bool {
+	return len(cfg) == 2 && cfg[0] >= '0' && cfg[0] <= '2' && cfg[1] >= '0' && cfg[1] <= '2'
+}
+
+// textSaysOptional: what the TEXT of a structured tag says — optional iff its (last) required argument lists `false`.
+func textSaysOptional(exp *tagExpect) bool {
+	for _, a := range exp.args {
+		if upFirst(a.name) == "Required" {
+			for _, it := range a.items {
+				if it == "false" {
+					return true
+				}
+			}
+		}
+	}
+	return false
+}
+
+// scanUser runs the REAL scanner code of a user-defined scanner over a run-time struct whose only field carries `text`
+// and evaluates the property on the property that arrives in the registry: same value part, the same arguments as the
+// tag text (the scanner may add its own Required marker, nothing else), and optional ONLY when the text says
+// required=false — whatever the scanner's Required field is (set, or left at its zero value).
+// ok=false: reflect.StructTag does not read the quoted text back (not a container matter).
+func scanUser(cfg, text string, exp *tagExpect) (obs, fail string, ok bool) {
+	var q *component_definition.Property
+	pan := hx.Guard(func() {
+		scanner, key := newUserScanner(cfg)
+		st := reflect.StructOf([]reflect.StructField{
+			{Name: "F", Type: reflect.TypeOf((*fmt.Stringer)(nil)).Elem(), Tag: reflect.StructTag(key + ":" + strconv.Quote(text))},
+		})
+		if v, found := st.Field(0).Tag.Lookup(key); !found || v != text {
+			return
+		}
+		ok = true
+		reg := support.DefaultDefinitionRegistry()
+		if err := scanner.PostProcessDefinitionRegistry(reg, reflect.New(st).Interface(), "c"); err != nil {
+			fail = "FAIL tag-scan-user scanning failed: " + err.Error()
+			return
+		}
+		for _, p := range reg.GetMetaByName("c").GetAllProperties() {
+			if p.StructField.Name == "F" {
+				q = p
+			}
+		}
+	})
+	if pan != nil {
+		return "panic", "FAIL tag-panic user scanner " + cfg + ": " + fmt.Sprint(pan), true
+	}
+	if !ok || fail != "" {
+		return "", fail, ok
+	}
+	if q == nil {
+		return "none", "FAIL tag-scan-user the tagged field produced no property (scanner " + cfg + ")", true
+	}
+	obs = obsProperty(q)
+	var direct *component_definition.Property
+	if hx.Guard(func() {
+		direct = component_definition.NewProperty(nil, component_definition.PropertyTypeComponent, "plugin", text)
+	}) != nil {
+		return obs, "", true // the panic of the parser itself is reported by the P scenarios
+	}
+	// what the text says: from the grammar for structured tags, from the direct parse of the text otherwise
+	optional := !direct.IsRequired()
+	if exp != nil {
+		optional = textSaysOptional(exp)
+	}
+	if q.IsRequired() == optional {
+		return obs, fmt.Sprintf("FAIL tag-scan-required-user scanner %s: plugin:%q scanned with IsRequired=%v args=%v, but the tag text has explicit required=false: %v (only that makes a point optional)",
+			cfg, text, q.IsRequired(), propArgs(q), optional), true
+	}
+	got, want := propArgs(q), propArgs(direct)
+	delete(got, "Required")
+	delete(want, "Required")
+	if q.TagVal != direct.TagVal || !reflect.DeepEqual(got, want) {
+		return obs, fmt.Sprintf("FAIL tag-scan-user scanner %s: plugin:%q scanned as value %q args %v, the text parses to %q args %v",
+			cfg, text, q.TagVal, got, direct.TagVal, want), true
+	}
+	return obs, "", true
+}
+
+func runTagU(cfg, text string, exp *tagExpect, tags []string, w *hx.Writer) {
+	if !validUserCfg(cfg) {
+		return
+	}
+	obs, fail, ok := scanUser(cfg, text, exp)
+	if !ok {
+		return
+	}
+	w.Put(hx.Case{Scn: "U " + cfg + " " + hx.Hex(text), Obs: obs, Oracle: fail, Tags: tags})
 }
 
 func tagReplay(scn string, w *hx.Writer) {
 	f := strings.Fields(scn)
+	if len(f) == 3 && f[0] == "U" {
+		if s, err := hx.UnHex(f[2]); err == nil {
+			runTagU(f[1], s, nil, []string{"replay"}, w)
+		}
+		return
+	}
 	if len(f) != 2 {
 		return
 	}
@@ -265,6 +411,86 @@ func tagCorpus(w *hx.Writer) {
 		"a,\x80b=c", "a,\xc3\xa9=c", "${a:b},required=false", "#{1+2},validate=min=1 max=3", "a,b=c=d", "a,b==", "[", "]", "a,]b=[", "a,(=)"} {
 		runTagP(s, nil, []string{"corpus"}, w)
 		runTagS(s, []string{"corpus"}, w)
+	}
+	// user-defined scanners: every Required setting x every way a tag reaches NewProperty, over the forms of required-ness
+	for _, s := range []string{"main", "", "main,qualifier=[x y]", "main,required", "main,Required", "main,required=true", "main,required=false",
+		"main,Required=false", "main,required=", "main,required=true false", "main,qualifier=[x y],required=false", "main,required=false,required=true",
+		"main, required=false", "main,required=False", "main,qualifier=required=false", "[main,required=false]", "main,required=[false]", "),required=false"} {
+		for _, cfg := range []string{"00", "10", "20", "01", "11", "02", "12"} {
+			runTagU(cfg, s, nil, []string{"corpus"}, w)
+		}
+	}
+}
+
+// genReqTag: a structured tag built around the forms of required-ness the property speaks about: no required argument,
+// a bare `required`, required=true, required=false (either first-letter case), next to other arguments.
+func genReqTag(r *hx.Rng) (string, *tagExpect) {
+	exp := &tagExpect{}
+	if r.P(4, 5) {
+		exp.val = genBalanced(r, 0, true)
+	}
+	seg := []string{exp.val}
+	add := func(name string, bare bool, items ...string) {
+		if bare {
+			exp.args = append(exp.args, tagArg{name: name, items: []string{""}})
+			seg = append(seg, name)
+			return
+		}
+		exp.args = append(exp.args, tagArg{name: name, items: items})
+		seg = append(seg, name+"="+strings.Join(items, " "))
+	}
+	other := func() {
+		switch r.Intn(4) {
+		case 0:
+			add("qualifier", false, "[x y]")
+		case 1:
+			add([]string{"qualifier", "Qualifier"}[r.Intn(2)], false, genBalanced(r, 0, true))
+		case 2:
+			add(genName2(r), false, genBalanced(r, 0, true), genBalanced(r, 0, true))
+		default:
+			add(genName2(r), true)
+		}
+	}
+	for n := r.Intn(3); n > 0; n-- {
+		other()
+	}
+	req := []string{"required", "Required"}[r.Intn(2)]
+	switch r.Intn(8) {
+	case 0, 1, 2: // no required argument at all
+	case 3:
+		add(req, true)
+	case 4:
+		add(req, false, "true")
+	case 5:
+		add(req, false, "false")
+	case 6:
+		add(req, false, "")
+	default:
+		add(req, false, []string{"true", "false", "False", "no", "[false]"}[r.Intn(5)], []string{"true", "false", "FALSE"}[r.Intn(3)])
+	}
+	for n := r.Intn(2); n > 0; n-- {
+		other()
+	}
+	last := map[string]int{}
+	for i, a := range exp.args {
+		last[upFirst(a.name)] = i
+	}
+	var kept []tagArg
+	for i, a := range exp.args {
+		if last[upFirst(a.name)] == i {
+			kept = append(kept, a)
+		}
+	}
+	exp.args = kept
+	return strings.Join(seg, ","), exp
+}
+
+// genName2: an argument name that is not a spelling of `required`
+func genName2(r *hx.Rng) string {
+	for {
+		if n := genName(r); upFirst(n) != "Required" {
+			return n
+		}
 	}
 }
 
@@ -384,7 +610,19 @@ func genBytes(r *hx.Rng) string {
 func tagGen(rng *hx.Rng, n int, tier string, w *hx.Writer) {
 	for i := 0; i < n; i++ {
 		r := rng.Fork()
-		switch k := r.Intn(10); {
+		switch k := r.Intn(11); {
+		case k == 10:
+			cfg := string([]byte{"012"[r.Intn(3)], "012"[r.Intn(3)]})
+			switch j := r.Intn(10); {
+			case j < 5:
+				s, exp := genReqTag(r)
+				runTagU(cfg, s, exp, []string{"user-scan", "req-forms", "R" + cfg[:1]}, w)
+			case j < 8:
+				s, exp := genStructured(r)
+				runTagU(cfg, s, exp, []string{"user-scan", "structured", "R" + cfg[:1]}, w)
+			default:
+				runTagU(cfg, genBytes(r), nil, []string{"user-scan", "bytes", "R" + cfg[:1]}, w)
+			}
 		case k < 4:
 			s, exp := genStructured(r)
 			tags := []string{"structured", fmt.Sprintf("args%d", len(exp.args))}
